@@ -89,7 +89,11 @@ def run_env(label: str, cfg: Dict[str, Any], steps: int, episodes: int, rng: ran
             a = rng.choice(power) if power and rng.random() < 0.45 else rng.randrange(n)
             acts.append(a)
             mark = len(rec.events)
-            env.step(a)
+            try:
+                env.step(a)
+            except Exception as e:  # noqa - a step that raises is C01's business; note it and start a new episode
+                chk.notes.append(f"{label}: env.step raised {type(e).__name__} (reported by C01); episode abandoned")
+                break
             all_entries(env, rec)
             traces.append({"cfg": {"dig": 0}, "ev": rec.events[mark:], "meta": {"scenario": label, "episode": ep, "step": s,
                                                                                "requests": rec.meta[mark:]},
